@@ -1004,6 +1004,41 @@ func runFamilyConsistent(p *Program, r *RuleResult) {
 				} else {
 					r.add(fnName(fn), f+":stays-in-its-interpreter", Holds, p.pos(fn.Pos()), "")
 				}
+				// a step loop entered by a plain call continues the process that is executing;
+				// any other process gets its own goroutine through the spawn function
+				for _, c := range p.callsIn(fn) {
+					call, isCall := c.(*ssa.Call)
+					if !isCall {
+						continue
+					}
+					sc := call.Common().StaticCallee()
+					if sc == nil || !(loops["Transition"][sc] || loops["TransitionNP"][sc]) || len(call.Common().Args) == 0 {
+						continue
+					}
+					recv := origin(call.Common().Args[0])
+					own := false
+					switch x := recv.(type) {
+					case *ssa.Parameter:
+						own = isNamed(x.Type(), processPkg, "Process")
+					case *ssa.FreeVar:
+						if b, ok := freeVarBinding(x).(*ssa.Parameter); ok {
+							own = isNamed(b.Type(), processPkg, "Process")
+						} else if b := freeVarBinding(x); b != nil {
+							if ld, ok := b.(*ssa.UnOp); ok {
+								_ = ld
+							}
+							_, isPrm := origin(b).(*ssa.Parameter)
+							own = isPrm
+						}
+					}
+					construct := f + ":loop-continues-own-process"
+					if own {
+						r.add(fnName(fn), construct, Holds, p.instrPos(call), "")
+					} else {
+						r.add(fnName(fn), construct, Violated, p.instrPos(call),
+							fmt.Sprintf("the step loop is entered by a plain call for a process other than the one executing (%s): the caller runs that process to its next blocking point on its own goroutine – if that process first waits for a message from the caller, both wait forever", displayKey(call.Common().Args[0])))
+					}
+				}
 			}
 		}
 	}
